@@ -95,6 +95,9 @@ def library():
     add("include", "cycle_dotdot", ["```{include} @@dir/@@cyc_b.txt", "```"],
         files={"@@dir/@@cyc_b.txt": "B\n\n```{include} ../@@cyc_c.txt\n```\n", "@@cyc_c.txt": "C\n\n```{include} @@dir/../@@dir/@@cyc_b.txt\n```\n"})
     add("include", "negative_offset", ["```{include} @@chap.txt", ":heading-offset: -1", "```"], files={"@@chap.txt": "# Chapter\n\ntext\n\n## Sub\n"})
+    # Markdown included from reStructuredText with the parser option (the including document's settings are not MyST's)
+    add("include", "rst_parser_option", ["```{eval-rst}", ".. include:: @@warn.md", "   :parser: myst_parser.docutils_", "```"],
+        files={"@@warn.md": "{nosuchrole}`x`\n\n# H\n\n#### skipped\n\n[^a]: unref\n\n[l](#nosuch)\n"}, front="docutils")
     add("include", "bad_option", ["```{include} @@ok.txt", ":start-line: x", "```"], files={"@@ok.txt": "ok\n"})
     add("include", "literal_missing", ["```{literalinclude} @@nosuch.py", "```"], front="sphinx")
     # inventories (docutils: myst_inventories)
